@@ -223,15 +223,20 @@ def _boot():
     return ns
 
 
-def _config_file(names, topology):
+def _config_file(names, topology, network_name="default", extra_networks=None):
     """network.json for these node names (cached per process, in a temp dir
-    outside /repo and /verif)."""
+    outside /repo and /verif).  The nodes form the network `network_name`;
+    extra_networks = {name: {"nodes": [names], "topology": ...}} adds further
+    networks to the same file (written after it, own port ranges)."""
     global _CFG_DIR, _CFG_PID
     if _CFG_PID != os.getpid():
         # forked worker (process pools): never share file names with the parent or siblings
         _CFG_DIR, _CFG_PID = None, os.getpid()
         _CFG_CACHE.clear()
     key = json.dumps([list(names), topology], sort_keys=True)
+    if network_name != "default" or extra_networks:
+        # (json.dumps without sort_keys: the order of the extra networks and of their nodes is part of the file)
+        key = json.dumps([list(names), topology, network_name, extra_networks])
     fn = _CFG_CACHE.get(key)
     if fn and os.path.exists(fn):
         return fn
@@ -242,11 +247,20 @@ def _config_file(names, topology):
     real = os.path.realpath(_CFG_DIR)
     if real.startswith("/repo/") or real.startswith("/verif/"):
         raise RuntimeError("refusing to write network config under %s" % real)
-    cfg = {"default": {"nodes": {n: {"app_socket": ["localhost", 8000 + 3 * i],
-                                      "qnodeos_socket": ["localhost", 8001 + 3 * i],
-                                      "vnode_socket": ["localhost", 8002 + 3 * i]}
-                                  for i, n in enumerate(names)},
-                       "topology": topology}}
+    cfg = {network_name: {"nodes": {n: {"app_socket": ["localhost", 8000 + 3 * i],
+                                         "qnodeos_socket": ["localhost", 8001 + 3 * i],
+                                         "vnode_socket": ["localhost", 8002 + 3 * i]}
+                                     for i, n in enumerate(names)},
+                          "topology": topology}}
+    for j, (xname, x) in enumerate((extra_networks or {}).items()):
+        if xname in cfg:
+            raise ValueError("duplicate network name %r" % (xname,))
+        base = 8000 + 300 * (j + 1)
+        cfg[xname] = {"nodes": {n: {"app_socket": ["localhost", base + 3 * i],
+                                    "qnodeos_socket": ["localhost", base + 1 + 3 * i],
+                                    "vnode_socket": ["localhost", base + 2 + 3 * i]}
+                                for i, n in enumerate(x["nodes"])},
+                      "topology": x.get("topology")}
     fn = os.path.join(_CFG_DIR, "network_%d.json" % len(_CFG_CACHE))
     with open(fn + ".tmp", "w") as f:
         json.dump(cfg, f)
@@ -620,7 +634,10 @@ class SimNet:
                 passed to every virtualNode.  topology: None or {name: [names]}
                 (only NetQASM's create_epr looks at it).  rng: random.Random
                 from which EVERY random draw derives unless scripted
-                (default Random(0)).
+                (default Random(0)).  network_name: the network of the
+                config file the nodes belong to (default "default");
+                extra_networks {name: {"nodes": [...], "topology": ...}}:
+                further networks written to the same file (not started).
 
     Attributes: nodes {name: virtualNode}, clock (the MemoryReactorClock),
     rng, config_file, trace (every action executed so far, incl. connection
@@ -635,7 +652,8 @@ class SimNet:
       "cli:A->A" / "cli:A<-A"   a client connection from `client("A")`
       (a second client of the same node is "cli2:A->A", ...)."""
 
-    def __init__(self, names, max_qubits=5, max_regs=100, topology=None, rng=None, host_order=None):
+    def __init__(self, names, max_qubits=5, max_regs=100, topology=None, rng=None, host_order=None,
+                 network_name="default", extra_networks=None):
         global _LIVE, _Pipe
         ns = _boot()
         self._ns = ns
@@ -660,7 +678,8 @@ class SimNet:
             raise ValueError("duplicate node names")
         self.rng = rng if rng is not None else random.Random(0)
         self.max_qubits, self.max_regs, self.topology = max_qubits, max_regs, topology
-        self.config_file = _config_file(self.names, topology)
+        self.network_name = network_name
+        self.config_file = _config_file(self.names, topology, network_name, extra_networks)
         ns.settings._config["network_config_file"] = self.config_file   # no write-through
         self.closed = False
         self._serial = 0
@@ -679,7 +698,7 @@ class SimNet:
         self.nodes = {}
         self._sfac = {}
         for n in self.names:
-            conf = ns.SocketsConfig(self.config_file, network_name="default", config_type="vnode")
+            conf = ns.SocketsConfig(self.config_file, network_name=network_name, config_type="vnode")
             self.nodes[n] = ns.V.virtualNode(conf.hostDict[n], conf, maxQubits=max_qubits, maxRegisters=max_regs)
             self._sfac[n] = pb.PBServerFactory(self.nodes[n])
         self.set_host_order(host_order if host_order is not None else self.names)
@@ -1238,10 +1257,11 @@ class NqNet(SimNet):
     Not provided: netqasm's own `NetQASMConnection` socket client (the host
     side here is a StringTransport, there is no socket)."""
 
-    def __init__(self, names, max_qubits=5, max_regs=100, topology=None, rng=None, host_order=None):
+    def __init__(self, names, max_qubits=5, max_regs=100, topology=None, rng=None, host_order=None,
+                 network_name="default", extra_networks=None):
         self.reset_shared_memory()
         SimNet.__init__(self, names, max_qubits=max_qubits, max_regs=max_regs, topology=topology, rng=rng,
-                        host_order=host_order)
+                        host_order=host_order, network_name=network_name, extra_networks=extra_networks)
         ns = self._ns
         from simulaqron.netqasm_backend.factory import NetQASMFactory
         from simulaqron.netqasm_backend.qnodeos import SubroutineHandler
@@ -1252,7 +1272,7 @@ class NqNet(SimNet):
         EX.random = _RandomProxy(self.rng)
         EX.time = _TimeProxy(self.clock)
         self._EX = EX
-        qn = ns.SocketsConfig(self.config_file, network_name="default", config_type="qnodeos")
+        qn = ns.SocketsConfig(self.config_file, network_name=network_name, config_type="qnodeos")
         self.qnodeos_net = qn
         self.facs, self.roots = {}, {}
         for n in self.names:
@@ -1260,7 +1280,8 @@ class NqNet(SimNet):
                       {"_next_ent_id": collections.defaultdict(int), "_next_create_id": collections.defaultdict(int)})
             sh = type("SH_" + n, (SubroutineHandler,),
                       {"_get_executor_class": classmethod(lambda cls, flavour=None, ex=ex: ex)})
-            f = NetQASMFactory(qn.hostDict[n], n, qn, sh)
+            f = NetQASMFactory(qn.hostDict[n], n, qn, sh) if network_name == "default" else \
+                NetQASMFactory(qn.hostDict[n], n, qn, sh, network_name=network_name)
             self.roots[n] = self.client(n)
             f.set_virtual_node(self.roots[n])
             self.facs[n] = f
